@@ -258,8 +258,38 @@ def bind_hole(h, options):
     return opts[k]
 
 
+def symset_contains(container, item):
+    terms = []
+    for x in container:
+        its = x.items if isinstance(x, Seg) else [x]
+        for e in its:
+            if e is item:
+                if isinstance(x, Seg):
+                    terms.append(zint(x.length) > 0)
+                    continue
+                return True
+            if isinstance(e, STRLIKE) and isinstance(item, STRLIKE):
+                if isinstance(x, Seg):
+                    terms.append(z3.Bool(f"in-seg:{tagstr(x.tag)}:{tagstr(getattr(item, 'tag', item))}"))
+                    continue
+                r = str_eq(e, item)
+                if r is True:
+                    return True
+                if r is not False:
+                    terms.append(r.t)
+            elif not is_symstr(e) and not is_symstr(item) and not isinstance(x, Seg):
+                if e == item:
+                    return True
+    if not terms:
+        return False
+    return mk_bool(z3.Or(*terms))
+
+
 def contains(container, item):
     check_usable(container, item)
+    from .sym import SymSet
+    if isinstance(container, SymSet):
+        return symset_contains(container, item)
     if isinstance(item, Hole) and isinstance(container, (list, tuple, set, frozenset, dict)) \
             and all(isinstance(x, str) for x in container) and not (isinstance(container, (list, tuple)) and has_seg(container)):
         return bind_hole(item, list(container)) is not None
@@ -439,6 +469,11 @@ def opaque_getattr(o: Opaque, name):
         if v is not NotImplemented:
             o.fields[name] = v
             return v
+    if name in ("lineno", "col_offset", "end_lineno", "end_col_offset") and o.cands is not None and all(
+            isinstance(k, type) and issubclass(k, (ast.expr, ast.stmt, ast.arg, ast.keyword, ast.alias, ast.excepthandler)) for k in o.cands):
+        v = SInt(z3.Int(f"{tagstr(o.tag)}.{name}"))  # parser-produced nodes carry positions
+        o.fields[name] = v
+        return v
     if name == "_fields" and o.cands is not None and len(o.cands) == 1:
         return next(iter(o.cands))._fields
     if name == "__class__":
@@ -722,6 +757,8 @@ def to_str(v):
     """str(v) / f'{v}'"""
     if isinstance(v, STRLIKE):
         return v
+    if isinstance(v, SInt):
+        return Hole(("str", str(z3.simplify(v.t))), "text")
     if isinstance(v, (SInt, SBool, Opaque, Seg, Fold)):
         if isinstance(v, Opaque) and "str" in v.props:
             return v.props["str"](v)
